@@ -276,9 +276,10 @@ def hand_new_pkgs():
     out.append(build_new_pkg([e, mid, top, tag], ["-getset"], extra_feats=["hand-chain3"]))
     # the same package imported under two names, each used by one type: the merged file needs both import specs
     # (MergeSources de-duplicates by path AND name)
+    # (the alias text reaches generated code verbatim only through a `def=` expression, emitted by -opt's SetDefault)
     a = hand_struct("Alpha", [hand_field("wait", "time.Duration")])
-    b = hand_struct("Beta", [hand_field("pause", "t2.Duration"), hand_field("n")])
-    pk = build_new_pkg([a, b], [], extra_feats=["hand-import-alias"])
+    b = hand_struct("Beta", [hand_field("pause", "time.Duration", **{"def": "t2.Second"}), hand_field("n")])
+    pk = build_new_pkg([a, b], ["-opt"], extra_feats=["hand-import-alias"])
     pk["files"]["t.go"] = pk["files"]["t.go"].replace('import (\n\t"time"\n)', 'import (\n\t"time"\n\tt2 "time"\n)')
     out.append(pk)
     return out
@@ -473,11 +474,12 @@ def simple_model(bodies):
 
 
 def gen_enum_pkg(rng, force=None):
+    force = force or {}
     n = rng.choice([2, 3, 3, 4, 5])
     names = list(TYPE_NAMES)
     rng.shuffle(names)
     names = names[:n]
-    flags = [f for f in ["-json", "-text", "-sql", "-bit"] if rng.random() < 0.3]
+    flags = force.get("flags") or [f for f in ["-json", "-text", "-sql", "-bit"] if rng.random() < 0.3]
     out = ["package en", ""]
     bodies = {}
     empty = rng.randrange(n) if rng.random() < 0.4 else -1
@@ -494,6 +496,9 @@ def gen_enum_pkg(rng, force=None):
         for j in range(k):
             out.append("\t%s%s%s" % (nm, ["Red", "Green", "Blue", "Black"][j], (" %s = %s" % (nm, start)) if j == 0 else ""))
         out.append(")\n")
+        if k >= 2 and rng.random() < 0.5:
+            # a constant typed only through its operands (not a member for the tool)
+            out.append("const %sFirstTwo = %sRed | %sGreen\n" % (nm, nm, nm))
         bodies[nm] = "gen"
     star = rng.random() < 0.35
     src = "\n".join(out)
